@@ -3,6 +3,7 @@
 -/
 import GoFlags.Lemmas.ParseBasics
 import GoFlags.Lemmas.Tables
+import GoFlags.Lemmas.Interleave
 
 namespace GoFlags.C10
 open GoFlags Bytes
@@ -253,4 +254,25 @@ theorem rest_slice_absorbs_all (E : Env) (sc : Sc) : ∀ (ws : List Bytes) (vs :
         | nil => simp
         | cons _ _ => simp [ConvWords] at hcrest
       · simp
+
+/-! ### Whole command lines: options interleaved with the words -/
+
+
+/-- **Options interleaved between the words do not disturb the binding — whole command lines.**
+    For a command line of any length that mixes option occurrences (`--name=V`, `--flag`, options in
+    scope) and plain words in any order, at a command without subcommands: every positional field,
+    the queue of pending fields and the remaining arguments end exactly as if the words alone had
+    been given, in their order, and those words alone raise no error either. -/
+theorem interleaved_options_do_not_disturb_binding (E : Env) (help : HelpFn) (items : List Item) (fuel : Nat) (s : PS)
+    (hf : items.length < fuel) (hargs : s.args = renderItems items) (hok : ItemsOK s items)
+    (hres : (applyItems E help s items).2 = none) :
+    let fin := parseLoop E help fuel s
+    let alone := (s.addArgs E (wordsOf items)).1
+    (∀ a, fin.P.argAt a = alone.P.argAt a) ∧ fin.positional = alone.positional ∧ fin.retargs = alone.retargs ∧
+    (s.addArgs E (wordsOf items)).2 = none := by
+  simp only
+  rw [parseLoop_of_items E help items fuel s hf hargs hok hres]
+  obtain ⟨h, he⟩ := items_bind_like_words_alone E help items s s (ArgsAgree.refl s) hok hres
+  exact ⟨fun a => h.args.argAt a, h.pos, h.ret, he⟩
+
 end GoFlags.C10
